@@ -116,6 +116,20 @@ Theorem C14_login_reuse_without_reset_refuted :
 Proof. exact login_reuse_without_reset_refuted. Qed.
 Print Assumptions C14_login_reuse_without_reset_refuted.
 
+(* ---- mail.Client: 2, 3, ... dials on one Client value ----
+   T1: mail.Client.auth does not keep the mechanism it builds (no assignment to c.smtpAuth in auth()), so *)
+Theorem C14_source_client_auth_builds_per_dial : Gen.client_auth_keeps_mechanism = false.
+Proof. exact gen_client_auth_builds_per_dial. Qed.
+Print Assumptions C14_source_client_auth_builds_per_dial.
+
+(* dial k of a Client is the exchange of the mechanism built for dial k (from the user name, password and TLS connection
+   state current at that dial: [mk k]) in its fresh state - independent of what the earlier dials did *)
+Theorem C14_client_dials_are_fresh : forall S (mk : nat -> mech S) lad s0 scripts k,
+  client_dials Gen.client_auth_keeps_mechanism mk lad s0 k scripts =
+  map (fun p => obs_of (auth (mk (fst p)) lad false s0 (snd p))) (combine (seq k (length scripts)) scripts).
+Proof. exact client_dials_fresh. Qed.
+Print Assumptions C14_client_dials_are_fresh.
+
 (* internal/pbkdf2.Key (block loop, U/T xor loop, transliterated in Scram.pbkdf2_key) is RFC 5802's Hi when the key
    length is the hash length (one block), for every HMAC with outputs of one length and every iteration count >= 1 *)
 Theorem C14_pbkdf2_is_Hi : forall (HMAC : bytes -> bytes -> bytes) (n : nat) pw salt (i : nat),
